@@ -343,10 +343,11 @@ Definition add_package (w : option world) (g : gpkg) : option world :=
 
 (* the universe after loading: requested packages are scanned; v2 records every package it
    was handed (all transitive dependencies), v1 only those that a type or an import names *)
-Definition build (pkgs : list gpkg) : option world :=
-  let w0 := {| w_u := {| objs := []; tkeys := [] |}; w_pkgs := [] |} in
+Definition build_from (u0 : univ) (pkgs : list gpkg) : option world :=
+  let w0 := {| w_u := u0; w_pkgs := [] |} in
   let w0 := if v2 then fold_left (fun w g => get_pkg w (g_path g)) pkgs w0 else w0 in
   fold_left add_package (filter g_requested pkgs) (Some w0).
+Definition build (pkgs : list gpkg) : option world := build_from {| objs := []; tkeys := [] |} pkgs.
 End Build.
 
 (* every package that holds a type key also exists as a package *)
@@ -489,6 +490,20 @@ Definition run_preds (inp : sexp) : option sexp :=
                           (map snd (sort_by_key (map (fun kn => (fst (fst kn) ++ [0%N] ++ snd (fst kn), kn)) (tkeys u))))
                 | None => etag "out-of-fuel" [] end)
       | _, _ => None end
+  | _ => None end.
+
+(* C06: Universe.Type lookups BEFORE loading into the same universe, then the load *)
+Definition run_prelookups (inp : sexp) : option sexp :=
+  match inp with
+  | L [L [A [v]; nodes; pkgs]; pre] =>
+      match dlist (dpair dnum (dpair dstr d_shape)) nodes, dlist d_gpkg pkgs, dlist (dpair dstr dstr) pre with
+      | Some nodes, Some pkgs, Some pre =>
+          let fuel := 2 * length nodes + 20 in
+          let u0 := fold_left (fun u k => fst (get_or_create (N.eqb v 2) u k)) pre {| objs := []; tkeys := [] |} in
+          Some (match build_from (N.eqb v 2) nodes fuel u0 pkgs with
+                | Some w => e_world w
+                | None => etag "out-of-fuel" [] end)
+      | _, _, _ => None end
   | _ => None end.
 
 (* C06: a sequence of Universe.Type lookups after loading: the object each returns *)
